@@ -462,6 +462,8 @@ func corr(e *env, seed uint64, n int) {
 	sencMalformed(r, n, next)
 	// --- T: sample sizes from trun / tfhd / trex (and with a nil trex)
 	e.trexCases(r, n/8, next)
+	// --- Q: DecryptInit on moovs with several protected entries / tracks
+	e.entryCases(r, n/2, next)
 	thirdPartyStruct(e, next)
 	out.Flush()
 }
